@@ -2,6 +2,7 @@ package main
 
 import (
 	"fmt"
+	"os"
 	"strings"
 
 	"github.com/quasilyte/go-ruleguard/ruleguard"
@@ -90,9 +91,10 @@ func probe(...interface{}) int  { return 0 }
 func probe2(a, b interface{})   {}
 func probeN(xs ...interface{})  {}
 func sink(int)                  {}
+func mk(int) func()             { return nil }
 func noResults()                { var _ []int; var _ T }
 func withResults() (int, error) { return 0, nil }
-func variadic(xs ...int)        { probe(xs); probeN(xs...) }
+func variadic(xs ...int)        { probe(xs); probeN(xs) }
 
 func body(x int, s []int, t T, p *T, i I, e error) (r int) {
 	probe(x)
@@ -137,10 +139,16 @@ func body(x int, s []int, t T, p *T, i I, e error) (r int) {
 	x = 5
 	t.a = x
 	s[0] = x
-	_ = T{1, 2}
+	_ = T{1, 2, nil}
 	t.f()
-	probe(x)()
+	mk(x)()
 	sink(probe(x))
+	_ = T{probe(1), 2, nil}
+	_ = []int{probe(2)}
+	_ = map[string]int{"k": probe(3)}
+	_ = map[int]string{probe(4): "v"}
+	_ = s[probe(5)]
+	variadic(probe(6), probe(7))
 	sink(probe(1))
 	x = probe(3)
 	var _ int = probe(4)
@@ -248,6 +256,9 @@ func runC07(c *Ctx) error {
 			if pk != "" {
 				res.Violate(hx.Violation{Signature: "run:" + pk + "@" + frame, What: "Run panics", Input: in2, Impl: pk + " at " + frame, Spec: "no panic"})
 				res.Dist("cell:PANIC")
+				if os.Getenv("VERIF_C07_ALL") != "" {
+					fmt.Fprintf(os.Stderr, "PANIC\t%s\t%s\t%s\t%s\t%s\n", pk, frame, cl.shape.name, cl.filter, cl.action)
+				}
 				continue
 			}
 			attempts += len(rs)
